@@ -5,6 +5,7 @@
 From Coq Require Import ZArith QArith List Bool.
 From Pandora Require Import Lib.Ext Lib.Blocks Model.Wta Spec.Wta Proofs.WtaP Gen.Constants.
 From Pandora Require Lib.BlockSkeleton Proofs.SkelWtaP Gen.BlockLoops.
+From Pandora Require Import Lib.NpNd Lib.NpNd3 Proofs.NpNdP Proofs.NpNd3P Model.WtaNp Gen.WtaFns Proofs.WtaGenP.
 Import ListNotations.
 
 (* per-run obligation on the regenerated constants *)
@@ -179,6 +180,146 @@ Proof.
   destruct H as [-> | [-> | ->]]; (split; [discriminate | intros x Hin; cbn in Hin; intuition (subst; discriminate)]).
 Qed.
 
+(* ================================================================== the GENERATED to_disp (Gen/WtaFns.v)
+   WinnerTakesAll.to_disp, argmin_split, argmax_split and extract_disparity_interval_from_cost_volume are
+   regenerated at every run, statement by statement, by translator/gen_wta_fns.py over the numpy combinators of
+   Lib/NpNd.v / Lib/NpNd3.v; the block loops of the split functions are the generated skeletons of
+   Gen/BlockLoops.v run by BlockSkeleton.exec (Model/WtaNp.skel_block_loop3).  [cv_rep CV nr nc n cv disps]: the
+   dataset CV holds a well-formed nr x nc x n volume whose pixel (r, c) is the cost list cv r c, the n sampled
+   disparities disps, nr row and nc column coordinates (Proofs/WtaGenP.v). *)
+
+From Coq Require Import String.
+
+(* to_disp as the code has it: both split functions over their own generated block loop *)
+Definition code_to_disp (inv : oq) (CV : cvds) : cvds * dmds :=
+  g_to_disp (skel_block_loop3 BlockLoops.argmin_split) (skel_block_loop3 BlockLoops.argmax_split) inv CV.
+(* the block size the measure type selects *)
+Definition code_block (mx : bool) : Z := if mx then wta_argmax_block else wta_argmin_block.
+
+(* per-run obligation: generated = model.  For every cost volume dataset of every shape with a non-empty disparity
+   axis, every invalid_disparity (None = NaN), either measure type: the disparity map of the generated to_disp is a
+   well-formed nr x nc array (nothing in the generated code raises: shapes agree, every looked-up position is inside
+   the disparity axis) equal pixel by pixel to the model's, the cost volume afterwards is the model's, disp_indices
+   is the model's; bands, flags, attributes, coordinates are the SAME arrays; disparity_interval is (first, last)
+   sampled disparity *)
+Theorem C03_gen_to_disp_is_model : forall inv CV nr nc n cv disps conf mask,
+  cv_rep CV nr nc n cv disps -> (0 < n)%Z -> (0 <= nr)%Z -> (0 <= nc)%Z ->
+  let mx := mx_of CV in
+  let o := to_disp mx (code_block mx) nr nc disps inv cv conf mask in
+  let CV' := fst (code_to_disp inv CV) in
+  let DM := snd (code_to_disp inv CV) in
+  is2 (dm_disp DM) nr nc (o_disp o)
+  /\ is3 (cv_cost CV') nr nc n (fun r c k => nth (Z.to_nat k) (o_cv o r c) None)
+  /\ (exists X, cv_disp_indices CV' = Some X /\ is2 X nr nc (o_disp_indices o))
+  /\ dm_conf DM = cv_conf CV /\ dm_mask DM = Some (cv_mask CV) /\ dm_attrs DM = Some (cv_attrs CV)
+  /\ dm_row DM = cv_row CV /\ dm_col DM = cv_col CV
+  /\ cv_disp CV' = cv_disp CV /\ cv_conf CV' = cv_conf CV /\ cv_mask CV' = cv_mask CV
+  /\ cv_attrs CV' = cv_attrs CV /\ cv_row CV' = cv_row CV /\ cv_col CV' = cv_col CV
+  /\ (exists I, dm_interval DM = Some I
+                /\ is1 I 2 (fun i => Some (nth (if (i =? 0)%Z then O else Z.to_nat (n - 1)) disps 0%Q))).
+Proof.
+  intros inv CV nr nc n cv disps conf mask Hrep Hn Hnr Hnc.
+  destruct C03_block_loop_skeleton as (_ & _ & Hmin & Hmax & Bmin & Bmax).
+  pose proof (gen_to_disp_is_model _ _ Hmin Hmax inv CV nr nc n cv disps conf mask Hrep Hn Hnr Hnc) as H.
+  unfold code_block. rewrite <- Bmin, <- Bmax. unfold sk_of in H. destruct (mx_of CV); exact H.
+Qed.
+
+(* C03_wta_eq_spec on the generated function: every pixel of every dataset receives the Spec's answer (least index
+   among the extrema of the non-NaN costs, else invalid_disparity); guard as in C03_wta_eq_spec *)
+Theorem C03_gen_wta_eq_spec : forall inv CV nr nc n cv disps,
+  cv_rep CV nr nc n cv disps -> (0 < n)%Z -> (0 <= nr)%Z -> (0 <= nc)%Z ->
+  let DM := snd (code_to_disp inv CV) in
+  err (dm_disp DM) = false /\ shp (dm_disp DM) = [nr; nc] /\
+  forall r c, (0 <= r < nr)%Z -> (0 <= c < nc)%Z -> no_subst_inf (mx_of CV) (cv r c) ->
+    elt (dm_disp DM) [r; c] = wta_pixel (mx_of CV) disps inv (cv r c).
+Proof.
+  intros inv CV nr nc n cv disps Hrep Hn Hnr Hnc. destruct C03_block_loop_skeleton as (_ & _ & Hmin & Hmax & _).
+  exact (gen_wta_eq_spec _ _ Hmin Hmax inv CV nr nc n cv disps Hrep Hn Hnr Hnc).
+Qed.
+
+(* pixels with no computable cost receive exactly invalid_disparity (generated function) *)
+Theorem C03_gen_wta_invalid_when_no_cost : forall inv CV nr nc n cv disps r c,
+  cv_rep CV nr nc n cv disps -> (0 < n)%Z -> (0 <= nr)%Z -> (0 <= nc)%Z -> (0 <= r < nr)%Z -> (0 <= c < nc)%Z ->
+  no_subst_inf (mx_of CV) (cv r c) -> no_computable (cv r c) ->
+  elt (dm_disp (snd (code_to_disp inv CV))) [r; c] = inv.
+Proof.
+  intros inv CV nr nc n cv disps r c Hrep Hn Hnr Hnc Hr Hc Hg Hno.
+  destruct (C03_gen_to_disp_is_model inv CV nr nc n cv disps (fun _ _ => []) (fun _ _ => 0%Z) Hrep Hn Hnr Hnc) as ((_ & _ & E) & _).
+  rewrite E by assumption. apply wta_invalid_all; try assumption.
+  - unfold code_block. destruct (mx_of CV); [exact (proj2 C03_block_sizes_wf) | exact (proj1 C03_block_sizes_wf)].
+  - destruct Hrep as (_ & Hlen & _). intros E0. specialize (Hlen r c Hr Hc). rewrite E0 in Hlen. cbn in Hlen. Lia.lia.
+Qed.
+
+(* the step leaves the cost volume values unchanged (generated function): EVERY volume, also those holding +-inf;
+   the dataset afterwards holds the same volume, disparity axis, coordinates, attributes, bands and flags *)
+Theorem C03_gen_wta_cv_unchanged : forall inv CV nr nc n cv disps,
+  cv_rep CV nr nc n cv disps -> (0 < n)%Z -> (0 <= nr)%Z -> (0 <= nc)%Z ->
+  let CV' := fst (code_to_disp inv CV) in
+  cv_rep CV' nr nc n cv disps
+  /\ cv_disp CV' = cv_disp CV /\ cv_conf CV' = cv_conf CV /\ cv_mask CV' = cv_mask CV
+  /\ cv_attrs CV' = cv_attrs CV /\ cv_row CV' = cv_row CV /\ cv_col CV' = cv_col CV.
+Proof.
+  intros inv CV nr nc n cv disps Hrep Hn Hnr Hnc. destruct C03_block_loop_skeleton as (_ & _ & Hmin & Hmax & _).
+  exact (gen_wta_cv_unchanged _ _ Hmin Hmax inv CV nr nc n cv disps Hrep Hn Hnr Hnc).
+Qed.
+
+(* confidence bands and validity flags are carried over unaltered (generated function): the result holds the
+   confidence DataArray of the volume (None when there is none) and the validity mask, the attributes and
+   coordinates; disp_indices holds the values of the disparity map *)
+Theorem C03_gen_wta_carries_flags_and_bands : forall inv CV nr nc n cv disps,
+  cv_rep CV nr nc n cv disps -> (0 < n)%Z -> (0 <= nr)%Z -> (0 <= nc)%Z ->
+  let CV' := fst (code_to_disp inv CV) in
+  let DM := snd (code_to_disp inv CV) in
+  dm_conf DM = cv_conf CV /\ dm_mask DM = Some (cv_mask CV) /\ dm_attrs DM = Some (cv_attrs CV)
+  /\ dm_row DM = cv_row CV /\ dm_col DM = cv_col CV
+  /\ (exists X, cv_disp_indices CV' = Some X /\ err X = false /\ shp X = [nr; nc]
+                /\ forall r c, (0 <= r < nr)%Z -> (0 <= c < nc)%Z -> elt X [r; c] = elt (dm_disp DM) [r; c])
+  /\ (exists I, dm_interval DM = Some I
+                /\ is1 I 2 (fun i => Some (nth (if (i =? 0)%Z then O else Z.to_nat (n - 1)) disps 0%Q))).
+Proof.
+  intros inv CV nr nc n cv disps Hrep Hn Hnr Hnc. destruct C03_block_loop_skeleton as (_ & _ & Hmin & Hmax & _).
+  exact (gen_wta_carries _ _ Hmin Hmax inv CV nr nc n cv disps Hrep Hn Hnr Hnc).
+Qed.
+
+(* the generated to_disp does not depend on the block sizes: with ANY other pair of skeletons accepted by
+   wta_skeleton_ok (any block sizes >= 1) in place of the generated ones, the same disparity at every pixel *)
+Theorem C03_gen_wta_block_independent : forall skmin skmax inv CV nr nc n cv disps r c,
+  BlockSkeleton.wta_skeleton_ok false skmin = true -> BlockSkeleton.wta_skeleton_ok true skmax = true ->
+  cv_rep CV nr nc n cv disps -> (0 < n)%Z -> (0 <= nr)%Z -> (0 <= nc)%Z -> (0 <= r < nr)%Z -> (0 <= c < nc)%Z ->
+  elt (dm_disp (snd (code_to_disp inv CV))) [r; c]
+  = elt (dm_disp (snd (g_to_disp (skel_block_loop3 skmin) (skel_block_loop3 skmax) inv CV))) [r; c].
+Proof.
+  intros skmin skmax inv CV nr nc n cv disps r c H1 H2 Hrep Hn Hnr Hnc Hr Hc.
+  destruct C03_block_loop_skeleton as (_ & _ & Hmin & Hmax & _).
+  exact (gen_wta_block_independent _ _ _ _ inv CV nr nc n cv disps r c Hmin Hmax H1 H2 Hrep Hn Hnr Hnc Hr Hc).
+Qed.
+
+(* per-run obligation on the storage the translator tracked: when to_disp returns, the disparity map, the validity
+   mask and the disparity interval of the result are fresh arrays (no variable of the cost volume dataset shares
+   their storage: a later in-place change of the result cannot reach the cost volume, nor the reverse) *)
+Theorem C03_gen_result_storage_fresh :
+  forallb (fresh_in g_to_disp_shares) ["disparity_map"%string; "validity_mask"%string; "disparity_interval"%string] = true.
+Proof. vm_compute. reflexivity. Qed.
+
+(* Non-vacuity of the generated statements: a 1 x 3 max-type dataset (tie, NaN, all-NaN pixel) satisfies cv_rep;
+   the generated to_disp, its block loop run by BlockSkeleton.exec, computes the expected map and leaves the
+   volume as it was *)
+Definition ex_CV : cvds :=
+  mkCv (mkNd false [1; 3; 3]%Z (fun idx => match idx with [r; c; k] => nth (Z.to_nat k) (ex_cv r c) None | _ => None end))
+       (mkNd false [3]%Z (fun idx => match idx with [k] => Some (nth (Z.to_nat k) [(-1)%Q; 0%Q; 1%Q] 0%Q) | _ => None end))
+       [0%Z] [0%Z; 1%Z; 2%Z] (mkWAttrs "max" 0) None (nd2 1 3 (fun _ _ => 0%Z)) None.
+Example C03_gen_example :
+  cv_rep ex_CV 1 3 3 ex_cv [(-1)%Q; 0%Q; 1%Q]
+  /\ map (fun c => elt (dm_disp (snd (code_to_disp (Some (7#2)) ex_CV))) [0%Z; c]) [0%Z; 1%Z; 2%Z] = [Some 0%Q; Some 0%Q; Some (7#2)]
+  /\ map (fun c => axis2_list (cv_cost (fst (code_to_disp (Some (7#2)) ex_CV))) 3 0 c) [0%Z; 1%Z; 2%Z] = map (ex_cv 0%Z) [0%Z; 1%Z; 2%Z]
+  /\ err (dm_disp (snd (code_to_disp (Some (7#2)) ex_CV))) = false.
+Proof.
+  split; [|vm_compute; repeat split; reflexivity].
+  unfold cv_rep, is3, is1, ex_CV. cbn [cv_cost cv_disp cv_row cv_col err shp elt]. repeat split; try reflexivity.
+  intros r c Hr Hc. assert (r = 0%Z) by Lia.lia. assert (H1 : c = 0%Z \/ c = 1%Z \/ c = 2%Z) by Lia.lia. subst r.
+  destruct H1 as [-> | [-> | ->]]; reflexivity.
+Qed.
+
 Print Assumptions C03_block_sizes_wf.
 Print Assumptions C03_block_loop_skeleton.
 Print Assumptions C03_wf_skeleton_is_loop2.
@@ -195,3 +336,10 @@ Print Assumptions C03_wta_within_pixel_interval.
 Print Assumptions C03_wta_cv_unchanged.
 Print Assumptions C03_wta_carries_flags_and_bands.
 Print Assumptions C03_subst_inf_witness.
+Print Assumptions C03_gen_to_disp_is_model.
+Print Assumptions C03_gen_wta_eq_spec.
+Print Assumptions C03_gen_wta_invalid_when_no_cost.
+Print Assumptions C03_gen_wta_cv_unchanged.
+Print Assumptions C03_gen_wta_carries_flags_and_bands.
+Print Assumptions C03_gen_wta_block_independent.
+Print Assumptions C03_gen_result_storage_fresh.
